@@ -265,6 +265,20 @@ class CFG:
             work.extend(self.nodes[n].succ)
         return seen
 
+    def reachable_normally(self, src: int, avoid=frozenset()) -> set[int]:
+        """Nodes reachable from ``src`` without any may-raise edge."""
+        seen = set()
+        work = [b for b in self.nodes[src].succ
+                if (src, b) not in self.exc_edges and b not in avoid]
+        while work:
+            n = work.pop()
+            if n in seen or n in avoid:
+                continue
+            seen.add(n)
+            work.extend(b for b in self.nodes[n].succ
+                        if (n, b) not in self.exc_edges)
+        return seen
+
     def reachable_from(self, src: int, avoid=frozenset()) -> set[int]:
         seen = set()
         stack = [src]
